@@ -1,5 +1,178 @@
 //! `dv threads`: stress evaluation of one shared ModelEvaluator from many threads (C20).
+//! One JSON request per line:
+//!   {"xml": model, "calls": [[invocable, context text], ...], "threads": n, "per_thread": k, "seed": s, "timeout_s": t}
+//! One Arc<ModelEvaluator> is built from the model; every call is first evaluated sequentially (expected value), then
+//! `n` threads each perform `k` calls in an order, with start/mid barriers and yield_now injections derived from the seed;
+//! every result is compared with the sequential result of the same (invocable, input).  A watchdog reports a deadlock
+//! when the threads do not finish within `t` seconds (the process then exits: stuck threads cannot be joined).
+//! After the threads a final single-threaded pass over all calls detects a poisoned lock.
+//! Answer: {"calls": total, "mismatches": [...], "deadlock": bool, "panics": n, "final_ok": bool, "expected": [...]}
+use crate::canon::canon;
+use dmntk_feel::Scope;
+use dmntk_model_evaluator::ModelEvaluator;
+use serde_json::{json, Value as J};
+use std::io::{BufRead, Write};
+use std::sync::atomic::{AtomicUsize, Ordering};
+use std::sync::mpsc;
+use std::sync::{Arc, Barrier};
+use std::time::Duration;
+
+struct Rng(u64);
+impl Rng {
+  fn next(&mut self) -> u64 {
+    // SplitMix64
+    self.0 = self.0.wrapping_add(0x9E3779B97F4A7C15);
+    let mut z = self.0;
+    z = (z ^ (z >> 30)).wrapping_mul(0xBF58476D1CE4E5B9);
+    z = (z ^ (z >> 27)).wrapping_mul(0x94D049BB133111EB);
+    z ^ (z >> 31)
+  }
+  fn below(&mut self, n: u64) -> u64 {
+    if n == 0 {
+      0
+    } else {
+      self.next() % n
+    }
+  }
+}
+
+fn eval_one(me: &ModelEvaluator, invocable: &str, ctx_text: &str) -> String {
+  match dmntk_feel_evaluator::evaluate_context(&Scope::default(), ctx_text) {
+    Ok(ctx) => canon(&me.evaluate_invocable(invocable, &ctx)).to_string(),
+    Err(_) => "\"input-error\"".to_string(),
+  }
+}
+
+fn one(req: &J) -> J {
+  let xml = req["xml"].as_str().unwrap_or("");
+  let calls: Vec<(String, String)> = req["calls"]
+    .as_array()
+    .map(|a| a.iter().map(|c| (c[0].as_str().unwrap_or("").to_string(), c[1].as_str().unwrap_or("{}").to_string())).collect())
+    .unwrap_or_default();
+  let threads = req["threads"].as_u64().unwrap_or(4) as usize;
+  let per_thread = req["per_thread"].as_u64().unwrap_or(100) as usize;
+  let seed = req["seed"].as_u64().unwrap_or(1);
+  let timeout_s = req["timeout_s"].as_u64().unwrap_or(30);
+  let defs = match dmntk_model::parse(xml) {
+    Ok(d) => d,
+    Err(e) => return json!({"err": format!("parse: {}", e)}),
+  };
+  let me: Arc<ModelEvaluator> = match ModelEvaluator::new(&defs) {
+    Ok(m) => m,
+    Err(e) => return json!({"err": format!("build: {}", e)}),
+  };
+  if calls.is_empty() {
+    return json!({"err": "no calls"});
+  }
+  // sequential reference
+  let expected: Arc<Vec<String>> = Arc::new(calls.iter().map(|(i, c)| eval_one(&me, i, c)).collect());
+  if req["show"].as_bool().unwrap_or(false) {
+    return json!({"expected": *expected});
+  }
+  let calls = Arc::new(calls);
+  let barrier = Arc::new(Barrier::new(threads));
+  let done = Arc::new(AtomicUsize::new(0));
+  let (tx, rx) = mpsc::channel::<(usize, Vec<J>, usize)>();
+  let sync_every = 1 + (seed % 7) as usize * 16;
+  for t in 0..threads {
+    let me = Arc::clone(&me);
+    let calls = Arc::clone(&calls);
+    let expected = Arc::clone(&expected);
+    let barrier = Arc::clone(&barrier);
+    let done = Arc::clone(&done);
+    let tx = tx.clone();
+    std::thread::spawn(move || {
+      let mut rng = Rng(seed ^ ((t as u64 + 1) * 0x1234567));
+      let mut bad: Vec<J> = vec![];
+      let mut panics = 0usize;
+      barrier.wait();
+      for k in 0..per_thread {
+        if k > 0 && k % sync_every == 0 {
+          barrier.wait(); // all threads do the same number of calls: re-align them so that they collide again
+        }
+        let ix = match rng.below(4) {
+          0 => k % calls.len(),                       // all threads on the same call
+          1 => (k + t) % calls.len(),                 // neighbouring calls
+          _ => rng.below(calls.len() as u64) as usize, // random
+        };
+        for _ in 0..rng.below(3) {
+          std::thread::yield_now();
+        }
+        let (inv, ctx) = &calls[ix];
+        let r = std::panic::catch_unwind(std::panic::AssertUnwindSafe(|| eval_one(&me, inv, ctx)));
+        match r {
+          Ok(v) => {
+            if v != expected[ix] && bad.len() < 5 {
+              bad.push(json!({"thread": t, "call_index": ix, "invocable": inv, "input": ctx, "got": v, "sequential": expected[ix]}));
+            }
+          }
+          Err(_) => {
+            panics += 1;
+            if bad.len() < 5 {
+              bad.push(json!({"thread": t, "call_index": ix, "invocable": inv, "input": ctx, "got": "panic", "sequential": expected[ix]}));
+            }
+          }
+        }
+        done.fetch_add(1, Ordering::Relaxed);
+      }
+      let _ = tx.send((t, bad, panics));
+    });
+  }
+  drop(tx);
+  let mut mismatches: Vec<J> = vec![];
+  let mut panics = 0usize;
+  let mut finished = 0usize;
+  let deadline = std::time::Instant::now() + Duration::from_secs(timeout_s);
+  while finished < threads {
+    let left = deadline.saturating_duration_since(std::time::Instant::now());
+    match rx.recv_timeout(left) {
+      Ok((_t, bad, p)) => {
+        finished += 1;
+        panics += p;
+        mismatches.extend(bad);
+      }
+      Err(_) => break,
+    }
+  }
+  let deadlock = finished < threads;
+  if deadlock {
+    // a panic inside a barrier-synchronised group also ends here; report and leave: stuck threads cannot be joined
+    let r = json!({"calls": done.load(Ordering::Relaxed), "mismatches": mismatches, "deadlock": true, "finished_threads": finished,
+                   "threads": threads, "panics": panics, "final_ok": J::Null});
+    println!("{}", r);
+    std::io::stdout().flush().unwrap();
+    std::process::exit(0);
+  }
+  // poisoned lock / damaged shared state: one more sequential pass
+  let again: Vec<String> = calls.iter().map(|(i, c)| eval_one(&me, i, c)).collect();
+  let final_bad: Vec<J> = again
+    .iter()
+    .zip(expected.iter())
+    .enumerate()
+    .filter(|(_, (a, b))| a != b)
+    .take(3)
+    .map(|(ix, (a, b))| json!({"call_index": ix, "invocable": calls[ix].0, "input": calls[ix].1, "got": a, "sequential": b}))
+    .collect();
+  let mut distinct: Vec<&String> = expected.iter().collect();
+  distinct.sort();
+  distinct.dedup();
+  let distinct_results = distinct.len();
+  json!({"calls": done.load(Ordering::Relaxed), "mismatches": mismatches, "deadlock": false, "panics": panics, "threads": threads,
+         "final_ok": final_bad.is_empty(), "final_mismatches": final_bad,
+         "distinct_results": distinct_results,
+         "null_results": expected.iter().filter(|e| e.as_str() == "null").count()})
+}
+
 pub fn main() {
-  eprintln!("dv threads: not built yet");
-  std::process::exit(2);
+  let stdin = std::io::stdin();
+  for line in stdin.lock().lines() {
+    let line = line.unwrap();
+    if line.trim().is_empty() {
+      continue;
+    }
+    let req: J = serde_json::from_str(&line).unwrap_or(J::Null);
+    let r = one(&req);
+    println!("{}", r);
+    std::io::stdout().flush().unwrap();
+  }
 }
